@@ -8,6 +8,9 @@
 //	start <id> <dbrps> <froms>      NewTask(script generated from <froms>, one `@sink()` under every from()) + StartTask
 //	stop <id> / delete <id>         StopTask / DeleteTask
 //	write <db> <rp> <points>        TaskMaster.WritePoints, or POST /kapacitor/v1/write (serveWriteLine) in http mode
+//	hwrite <db> <rp> <prec> <lines> always POST /kapacitor/v1/write: `db`/`rp` = % means "parameter absent", <prec> one of
+//	                                - n u ms s, a line `!k` is the k-th malformed line of a pool  => ok | err:<status>
+//	cwrite <db> <rp> <w1>&<w2>&…    one goroutine per writer, each calling WritePoints with its points, all at once
 //	final <id> <i>                  => ids of the points the sink under the i-th from() of task <id> recorded, in order
 //	quiesce                         => number of waits that timed out (0 unless the implementation lost points)
 //
@@ -28,6 +31,8 @@ import (
 	"fmt"
 	"net/http"
 	"os"
+	"os/exec"
+	"path/filepath"
 	"strconv"
 	"strings"
 	"time"
@@ -46,7 +51,9 @@ import (
 
 type fromDef struct {
 	db, rp, name string
-	wh           int // -1 = no where()
+	wh           int    // -1 = no where()
+	opts         string // subset of "gamtr": groupBy('host'), groupBy(*), groupByMeasurement(), truncate(1s), round(1s)
+	parent       int    // -1 = stream|from(); j = chained below from-node #j (j earlier)
 }
 
 type taskDef struct {
@@ -169,7 +176,18 @@ func fromsTok(fs []fromDef) string {
 		if f.wh >= 0 {
 			wh = strconv.Itoa(f.wh)
 		}
-		s = append(s, kit.Esc(f.db)+"|"+kit.Esc(f.rp)+"|"+kit.Esc(f.name)+"|"+wh)
+		tok := kit.Esc(f.db) + "|" + kit.Esc(f.rp) + "|" + kit.Esc(f.name) + "|" + wh
+		if f.opts != "" || f.parent >= 0 {
+			o, par := "-", "-"
+			if f.opts != "" {
+				o = f.opts
+			}
+			if f.parent >= 0 {
+				par = strconv.Itoa(f.parent)
+			}
+			tok += "|" + o + "|" + par
+		}
+		s = append(s, tok)
 	}
 	return strings.Join(s, ",")
 }
@@ -178,7 +196,7 @@ func parseFroms(tok string) ([]fromDef, error) {
 	var out []fromDef
 	for _, x := range strings.Split(tok, ",") {
 		f := strings.Split(x, "|")
-		if len(f) != 4 {
+		if len(f) != 4 && len(f) != 6 {
 			return nil, fmt.Errorf("bad from %q", x)
 		}
 		db, e1 := kit.Unesc(f[0])
@@ -195,7 +213,23 @@ func parseFroms(tok string) ([]fromDef, error) {
 			}
 			wh = k
 		}
-		out = append(out, fromDef{db: db, rp: rp, name: nm, wh: wh})
+		fd := fromDef{db: db, rp: rp, name: nm, wh: wh, parent: -1}
+		if len(f) == 6 {
+			if f[4] != "-" {
+				if strings.Trim(f[4], "gamtr") != "" {
+					return nil, fmt.Errorf("bad from options %q", f[4])
+				}
+				fd.opts = f[4]
+			}
+			if f[5] != "-" {
+				j, err := strconv.Atoi(f[5])
+				if err != nil || j < 0 || j >= len(out) {
+					return nil, fmt.Errorf("bad parent %q", f[5])
+				}
+				fd.parent = j
+			}
+		}
+		out = append(out, fd)
 	}
 	return out, nil
 }
@@ -208,8 +242,12 @@ func tickStr(s string) string {
 // creation order: stream0, from1, sink2, from3, sink4, … so the sink under from #i is node `sink<2i+2>`.
 func script(d *taskDef) string {
 	var b strings.Builder
-	for _, f := range d.froms {
-		b.WriteString("stream\n    |from()\n")
+	for i, f := range d.froms {
+		src := "stream"
+		if f.parent >= 0 {
+			src = fmt.Sprintf("f%d", f.parent)
+		}
+		fmt.Fprintf(&b, "var f%d = %s\n    |from()\n", i, src)
 		if f.db != "" {
 			b.WriteString("        .database(" + tickStr(f.db) + ")\n")
 		}
@@ -222,7 +260,22 @@ func script(d *taskDef) string {
 		if f.wh >= 0 {
 			b.WriteString("        .where(lambda: " + preds[f.wh].lambda + ")\n")
 		}
-		b.WriteString("    @sink()\n")
+		if strings.Contains(f.opts, "g") {
+			b.WriteString("        .groupBy('host')\n")
+		}
+		if strings.Contains(f.opts, "a") {
+			b.WriteString("        .groupBy(*)\n")
+		}
+		if strings.Contains(f.opts, "m") {
+			b.WriteString("        .groupByMeasurement()\n")
+		}
+		if strings.Contains(f.opts, "t") {
+			b.WriteString("        .truncate(1s)\n")
+		}
+		if strings.Contains(f.opts, "r") {
+			b.WriteString("        .round(1s)\n")
+		}
+		fmt.Fprintf(&b, "f%d\n    @sink()\n", i)
 	}
 	return b.String()
 }
@@ -230,6 +283,15 @@ func script(d *taskDef) string {
 func sinkKey(id string, i int) string { return fmt.Sprintf("%s/sink%d", id, 2*i+2) }
 
 // selects is the harness' own reading of the from() selection (used only to know how long to wait).
+func selectsChain(d *taskDef, i int, db, rp string, p *point) bool {
+	for j := i; j >= 0; j = d.froms[j].parent {
+		if !selects(&d.froms[j], db, rp, p) {
+			return false
+		}
+	}
+	return true
+}
+
 func selects(f *fromDef, db, rp string, p *point) bool {
 	if f.db != "" && f.db != db {
 		return false
@@ -347,7 +409,15 @@ type runner struct {
 	timeouts  int
 	waitLimit time.Duration
 	store     *snapStore
+	wrote     map[int64]*wpoint
+	epochs    map[string][]epoch // sink key -> which from-node definition recorded from which index on
 	hung      string // set when a call into the real code did not return (the process must then exit)
+}
+
+type epoch struct {
+	from int // index into the sink's recording at which this incarnation begins
+	def  *taskDef
+	i    int
 }
 
 // call runs one call into the real code under a watchdog: a TaskMaster call that blocks for ever (e.g. StopTask
@@ -515,6 +585,11 @@ func (r *runner) start(d *taskDef, failSnapshot bool) string {
 		r.everDef[d.id] = len(d.froms)
 	}
 	r.running[d.id] = d
+	for i := range d.froms {
+		k := sinkKey(d.id, i)
+		// an earlier incarnation of this id is stopped, so its sinks are final: the new one records from here on
+		r.epochs[k] = append(r.epochs[k], epoch{from: len(r.tm.Rec.Get(k)), def: d, i: i})
+	}
 	return "ok"
 }
 
@@ -549,51 +624,85 @@ func lpEsc(s string, measurement bool) string {
 	return s
 }
 
-func (r *runner) write(db, rp string, pts []*point) string {
-	if r.http {
-		var body bytes.Buffer
-		for _, p := range pts {
-			fmt.Fprintf(&body, "%s,host=%s id=%di,v=%di %d\n", lpEsc(p.name, true), lpEsc(p.host, false), p.id, p.v, baseTime.UnixNano()+p.id)
+// origTime is the time a point is written with: 300 ms apart, so that truncate(1s)/round(1s) are visible.
+func origTime(id int64) time.Time { return baseTime.Add(time.Duration(id) * 300 * time.Millisecond) }
+
+var precUnit = map[string]int64{"-": 1, "n": 1, "u": 1e3, "ms": 1e6, "s": 1e9}
+
+// what the harness remembers of a written point (to check what the sinks recorded)
+type wpoint struct {
+	p      *point
+	db, rp string
+	t      time.Time
+}
+
+func (r *runner) mkPoints(pts []*point) ([]imodels.Point, bool) {
+	var mps []imodels.Point
+	for _, p := range pts {
+		tags := map[string]string{}
+		if p.host != "" {
+			tags["host"] = p.host
 		}
-		u := r.tm.HTTPD.URL() + "/write?db=" + urlEsc(db) + "&rp=" + urlEsc(rp)
-		var resp *http.Response
-		err, hung := r.call("POST /write", func() error { var e error; resp, e = http.Post(u, "text/plain", &body); return e })
-		if hung {
-			return "hang"
-		}
+		mp, err := imodels.NewPoint(p.name, imodels.NewTags(tags), imodels.Fields{"id": p.id, "v": p.v}, origTime(p.id))
 		if err != nil {
-			return "err:http"
+			return nil, false
 		}
-		resp.Body.Close()
-		if resp.StatusCode != http.StatusNoContent {
-			return "err:" + strconv.Itoa(resp.StatusCode)
-		}
-	} else {
-		var mps []imodels.Point
-		for _, p := range pts {
-			tags := map[string]string{}
-			if p.host != "" {
-				tags["host"] = p.host
-			}
-			mp, err := imodels.NewPoint(p.name, imodels.NewTags(tags),
-				imodels.Fields{"id": p.id, "v": p.v}, baseTime.Add(time.Duration(p.id)))
-			if err != nil {
-				return "err:point"
-			}
-			mps = append(mps, mp)
-		}
-		err, hung := r.call("WritePoints", func() error { return r.tm.TM.WritePoints(db, rp, imodels.ConsistencyLevelAll, mps) })
-		if hung {
-			return "hang"
-		}
-		if err != nil {
-			return "err:write"
-		}
+		mps = append(mps, mp)
 	}
+	return mps, true
+}
+
+// post sends one body to the /write endpoint; db / rp / precision "" = parameter absent.
+func (r *runner) post(db, rp, prec string, hasDB, hasRP bool, body []byte) string {
+	var q []string
+	if hasDB {
+		q = append(q, "db="+urlEsc(db))
+	}
+	if hasRP {
+		q = append(q, "rp="+urlEsc(rp))
+	}
+	if prec != "" && prec != "-" {
+		q = append(q, "precision="+prec)
+	}
+	u := r.tm.HTTPD.URL() + "/write?" + strings.Join(q, "&")
+	var resp *http.Response
+	err, hung := r.call("POST /write", func() error {
+		var e error
+		resp, e = http.Post(u, "text/plain", bytes.NewReader(body))
+		return e
+	})
+	if hung {
+		return "hang"
+	}
+	if err != nil {
+		return "err:http"
+	}
+	resp.Body.Close()
+	if resp.StatusCode != http.StatusNoContent {
+		return "err:" + strconv.Itoa(resp.StatusCode)
+	}
+	return "ok"
+}
+
+func lpLine(p *point, prec string) (string, time.Time) {
+	unit := precUnit[prec]
+	ts := origTime(p.id).UnixNano() / unit
+	return fmt.Sprintf("%s,host=%s id=%di,v=%di %d\n", lpEsc(p.name, true), lpEsc(p.host, false), p.id, p.v, ts), time.Unix(0, ts*unit).UTC()
+}
+
+// accepted does the book-keeping of points the implementation accepted.
+func (r *runner) accepted(db, rp string, pts []*point, times map[int64]time.Time) {
 	r.written += int64(len(pts))
 	erp := rp
 	if erp == "" {
 		erp = r.defRP
+	}
+	for _, p := range pts {
+		t, ok := times[p.id]
+		if !ok {
+			t = origTime(p.id)
+		}
+		r.wrote[p.id] = &wpoint{p: p, db: db, rp: erp, t: t}
 	}
 	for id, d := range r.running {
 		declared := false
@@ -607,11 +716,105 @@ func (r *runner) write(db, rp string, pts []*point) string {
 		}
 		for i := range d.froms {
 			for _, p := range pts {
-				if selects(&d.froms[i], db, erp, p) {
+				if selectsChain(d, i, db, erp, p) {
 					r.expected[sinkKey(id, i)]++
 				}
 			}
 		}
+	}
+}
+
+func (r *runner) write(db, rp string, pts []*point) string {
+	times := map[int64]time.Time{}
+	if r.http {
+		var body bytes.Buffer
+		for _, p := range pts {
+			l, t := lpLine(p, "n")
+			body.WriteString(l)
+			times[p.id] = t
+		}
+		if obs := r.post(db, rp, "", true, true, body.Bytes()); obs != "ok" {
+			return obs
+		}
+	} else {
+		mps, ok := r.mkPoints(pts)
+		if !ok {
+			return "err:point"
+		}
+		err, hung := r.call("WritePoints", func() error { return r.tm.TM.WritePoints(db, rp, imodels.ConsistencyLevelAll, mps) })
+		if hung {
+			return "hang"
+		}
+		if err != nil {
+			return "err:write"
+		}
+	}
+	r.accepted(db, rp, pts, times)
+	return "ok"
+}
+
+// malformed line-protocol lines (each makes models.ParsePointsWithPrecision fail)
+var badLines = []string{"cpu_without_fields", "cpu v=", "cpu,host= v=1i", "cpu v=1i notatime"}
+
+// hwrite: one HTTP request; lines[i] == nil is a malformed line (bad[i] says which).
+func (r *runner) hwrite(db, rp, prec string, hasDB, hasRP bool, lines []*point, bad []int) string {
+	var body bytes.Buffer
+	times := map[int64]time.Time{}
+	var good []*point
+	for i, p := range lines {
+		if p == nil {
+			body.WriteString(badLines[bad[i]%len(badLines)] + "\n")
+			continue
+		}
+		l, t := lpLine(p, prec)
+		body.WriteString(l)
+		times[p.id] = t
+		good = append(good, p)
+	}
+	obs := r.post(db, rp, prec, hasDB, hasRP, body.Bytes())
+	if obs == "ok" {
+		r.accepted(db, rp, good, times)
+	}
+	return obs
+}
+
+// cwrite: several writers at once, one WritePoints call each.
+func (r *runner) cwrite(db, rp string, writers [][]*point) string {
+	var batches [][]imodels.Point
+	for _, w := range writers {
+		mps, ok := r.mkPoints(w)
+		if !ok {
+			return "err:point"
+		}
+		batches = append(batches, mps)
+	}
+	err, hung := r.call("WritePoints (concurrent)", func() error {
+		start := make(chan struct{})
+		errs := make(chan error, len(batches))
+		for _, b := range batches {
+			b := b
+			go func() {
+				<-start
+				errs <- r.tm.TM.WritePoints(db, rp, imodels.ConsistencyLevelAll, b)
+			}()
+		}
+		close(start)
+		var first error
+		for range batches {
+			if e := <-errs; e != nil && first == nil {
+				first = e
+			}
+		}
+		return first
+	})
+	if hung {
+		return "hang"
+	}
+	if err != nil {
+		return "err:write"
+	}
+	for _, w := range writers {
+		r.accepted(db, rp, w, nil)
 	}
 	return "ok"
 }
@@ -629,22 +832,73 @@ func urlEsc(s string) string {
 	return b.String()
 }
 
-func idsOf(msgs []edge.Message) string {
+// sinkIDs renders what a sink recorded: the ids in order; an id gets a suffix when the recorded point is not the
+// written point as the from-node must hand it on: `!c` content (name, db, rp, tags, fields), `!t` time (after the
+// truncate / round of the from-nodes above the sink), `!d` dimensions (groupBy / groupByMeasurement of ITS from-node).
+func (r *runner) sinkIDs(key string) string {
+	msgs := r.tm.Rec.Get(key)
 	if len(msgs) == 0 {
 		return "-"
 	}
+	eps := r.epochs[key]
 	var s []string
-	for _, m := range msgs {
+	for n, m := range msgs {
 		pm, ok := m.(edge.PointMessage)
 		if !ok {
 			s = append(s, "x")
 			continue
 		}
-		if v, ok := pm.Fields()["id"].(int64); ok {
-			s = append(s, strconv.FormatInt(v, 10))
-		} else {
+		id, ok := pm.Fields()["id"].(int64)
+		if !ok {
 			s = append(s, "x")
+			continue
 		}
+		tok := strconv.FormatInt(id, 10)
+		var ep *epoch
+		for k := range eps {
+			if eps[k].from <= n {
+				ep = &eps[k]
+			}
+		}
+		if w := r.wrote[id]; w != nil && ep != nil {
+			host, hasHost := pm.Tags()["host"]
+			v, _ := pm.Fields()["v"].(int64)
+			if pm.Name() != w.p.name || pm.Database() != w.db || pm.RetentionPolicy() != w.rp || v != w.p.v ||
+				host != w.p.host || hasHost != (w.p.host != "") || len(pm.Fields()) != 2 || len(pm.Tags()) > 1 {
+				tok += "!c"
+			}
+			// time: the from-nodes from the top of the chain down to this one truncate, then round
+			var chain []int
+			for j := ep.i; j >= 0; j = ep.def.froms[j].parent {
+				chain = append([]int{j}, chain...)
+			}
+			t := w.t
+			for _, j := range chain {
+				if strings.Contains(ep.def.froms[j].opts, "t") {
+					t = t.Truncate(time.Second)
+				}
+				if strings.Contains(ep.def.froms[j].opts, "r") {
+					t = t.Round(time.Second)
+				}
+			}
+			if !pm.Time().Equal(t) {
+				tok += "!t"
+			}
+			o := ep.def.froms[ep.i].opts
+			var want []string
+			if strings.Contains(o, "a") {
+				if w.p.host != "" {
+					want = []string{"host"}
+				}
+			} else if strings.Contains(o, "g") {
+				want = []string{"host"}
+			}
+			dims := pm.Dimensions()
+			if dims.ByName != strings.Contains(o, "m") || strings.Join(dims.TagNames, ",") != strings.Join(want, ",") {
+				tok += "!d"
+			}
+		}
+		s = append(s, tok)
 	}
 	return strings.Join(s, ",")
 }
@@ -652,7 +906,8 @@ func idsOf(msgs []edge.Message) string {
 // execCase runs the op lines of one case and returns them with observations. `final`/`quiesce` lines are
 // (re)generated from what was started, so a shrunk or hand-written case needs none.
 func execCase(ops []string) (out []string, hung string) {
-	r := &runner{running: map[string]*taskDef{}, everDef: map[string]int{}, expected: map[string]int{}, waitLimit: 8 * time.Second}
+	r := &runner{running: map[string]*taskDef{}, everDef: map[string]int{}, expected: map[string]int{}, waitLimit: 8 * time.Second,
+		wrote: map[int64]*wpoint{}, epochs: map[string][]epoch{}}
 	if s := os.Getenv("VERIF_C02_WAIT_MS"); s != "" {
 		if v, err := strconv.Atoi(s); err == nil {
 			r.waitLimit = time.Duration(v) * time.Millisecond
@@ -692,9 +947,7 @@ func execCase(ops []string) (out []string, hung string) {
 		fmt.Fprintln(os.Stderr, "c02: cannot open TaskMaster:", err)
 		os.Exit(4)
 	}
-	if r.http {
-		tm.HTTPD.Handler.PointsWriter = tm.TM
-	}
+	tm.HTTPD.Handler.PointsWriter = tm.TM // the shared httpd service writes into this case's TaskMaster
 	r.base = ingressSum()
 	guard := func(line string, f func() string) {
 		defer func() {
@@ -728,6 +981,69 @@ func execCase(ops []string) (out []string, hung string) {
 		case "stop", "delete":
 			id, _ := kit.Unesc(t[1])
 			guard(line, func() string { return r.stop(id, t[0] == "delete") })
+		case "hwrite":
+			if len(t) != 5 || precUnit[t[3]] == 0 {
+				out = append(out, line+" => badop")
+				continue
+			}
+			db, _ := kit.Unesc(t[1])
+			rp, _ := kit.Unesc(t[2])
+			var lines []*point
+			var bad []int
+			var toks []string
+			ok := true
+			for _, x := range strings.Split(t[4], ",") {
+				if strings.HasPrefix(x, "!") {
+					k, err := strconv.Atoi(x[1:])
+					if err != nil || k < 0 {
+						ok = false
+						break
+					}
+					lines, bad, toks = append(lines, nil), append(bad, k), append(toks, x)
+					continue
+				}
+				p, err := parsePoint(x)
+				if err != nil || p.name == "" {
+					ok = false
+					break
+				}
+				lines, bad, toks = append(lines, p), append(bad, 0), append(toks, pointTok(p))
+			}
+			if !ok {
+				out = append(out, line+" => badop")
+				continue
+			}
+			line = fmt.Sprintf("hwrite %s %s %s %s", t[1], t[2], t[3], strings.Join(toks, ","))
+			guard(line, func() string { return r.hwrite(db, rp, t[3], t[1] != "%", t[2] != "%", lines, bad) })
+		case "cwrite":
+			if len(t) != 4 {
+				out = append(out, line+" => badop")
+				continue
+			}
+			db, _ := kit.Unesc(t[1])
+			rp, _ := kit.Unesc(t[2])
+			var writers [][]*point
+			var wtoks []string
+			ok := true
+			for _, w := range strings.Split(t[3], "&") {
+				var pts []*point
+				var toks []string
+				for _, x := range strings.Split(w, ",") {
+					p, err := parsePoint(x)
+					if err != nil {
+						ok = false
+						break
+					}
+					pts, toks = append(pts, p), append(toks, pointTok(p))
+				}
+				writers, wtoks = append(writers, pts), append(wtoks, strings.Join(toks, ","))
+			}
+			if !ok {
+				out = append(out, line+" => badop")
+				continue
+			}
+			line = fmt.Sprintf("cwrite %s %s %s", t[1], t[2], strings.Join(wtoks, "&"))
+			guard(line, func() string { return r.cwrite(db, rp, writers) })
 		case "write":
 			if len(t) != 4 {
 				out = append(out, line+" => badop")
@@ -768,12 +1084,10 @@ func execCase(ops []string) (out []string, hung string) {
 	if _, hung := r.call("TaskMaster.Close", func() error { tm.Close(); return nil }); hung {
 		out = append(out, "close => hang")
 	}
-	if r.http {
-		tm.HTTPD.Handler.PointsWriter = nil
-	}
+	tm.HTTPD.Handler.PointsWriter = nil
 	for _, id := range r.order {
 		for i := 0; i < r.everDef[id]; i++ {
-			out = append(out, fmt.Sprintf("final %s %d => %s", kit.Esc(id), i, idsOf(tm.Rec.Get(sinkKey(id, i)))))
+			out = append(out, fmt.Sprintf("final %s %d => %s", kit.Esc(id), i, r.sinkIDs(sinkKey(id, i))))
 		}
 	}
 	out = append(out, fmt.Sprintf("quiesce => %d", r.timeouts))
@@ -821,6 +1135,20 @@ func Run(args []string) int {
 		return 0
 	}
 	r := kit.NewRand(f.Seed)
+	if f.Tier == "racechild" {
+		// child process built with -race: concurrent-writer heavy cases
+		for i := 0; i < f.N; i++ {
+			lines, hung := execCase(genCase(r.Fork(), i, "racechild"))
+			emit(out, fmt.Sprintf("rc%d", i), lines)
+			if hung != "" {
+				return 3
+			}
+		}
+		return 0
+	}
+	if f.Tier == "thorough" {
+		defer raceChild(out, f.Seed, f.N)
+	}
 	for i := 0; i < f.N; i++ {
 		lines, hung := execCase(genCase(r.Fork(), i, f.Tier))
 		emit(out, fmt.Sprintf("g%d", i), lines)
@@ -830,4 +1158,62 @@ func Run(args []string) int {
 		}
 	}
 	return 0
+}
+
+// raceChild (thorough tier): rebuild this harness with the Go race detector and run cases under it (the routing path
+// is shared by the writers' goroutines, the forking goroutine and StartTask/StopTask). Only one of the parallel seed
+// jobs of a check run does it (lock file in the run's scratch dir). The child's cases are copied to the output and
+// judged like every other case; a final case reports how many data races the detector printed (driver: SPECFAIL
+// no-data-race when it is not 0). Same mechanism as harness/c12.
+func raceChild(out *kit.Out, seed uint64, n int) {
+	scratch := os.Getenv("VERIF_SCRATCH")
+	if scratch == "" {
+		return
+	}
+	lock, err := os.OpenFile(filepath.Join(scratch, "c02-race.lock"), os.O_CREATE|os.O_EXCL|os.O_WRONLY, 0o644)
+	if err != nil {
+		return // another seed job of this run does it
+	}
+	lock.Close()
+	exe, err := os.Executable()
+	if err != nil {
+		emit(out, "race", []string{"race check tasks=0 => err:exe"})
+		return
+	}
+	bin := filepath.Join(scratch, "vh-c02-race")
+	build := exec.Command("go", "build", "-race", "-tags", "verif", "-o", bin, "./cmd/c02")
+	build.Dir = filepath.Join(filepath.Dir(exe), "..", "harness")
+	build.Env = append(os.Environ(), "GOFLAGS=-mod=mod", "GOPROXY=off", "CGO_ENABLED=1")
+	if msg, err := build.CombinedOutput(); err != nil {
+		fmt.Fprintln(os.Stderr, "c02: race build failed:", err, string(msg))
+		emit(out, "race", []string{"race check tasks=0 => err:build"})
+		return
+	}
+	defer os.Remove(bin)
+	k := n / 25
+	if k < 20 {
+		k = 20
+	}
+	if k > 80 {
+		k = 80
+	}
+	child := exec.Command(bin, "-seed", strconv.FormatUint(seed, 10), "-n", strconv.Itoa(k), "-tier", "racechild")
+	child.Env = append(os.Environ(), "GORACE=exitcode=0")
+	var so, se strings.Builder
+	child.Stdout, child.Stderr = &so, &se
+	if err := child.Run(); err != nil {
+		fmt.Fprintln(os.Stderr, "c02: race child failed:", err, se.String())
+		emit(out, "race", []string{fmt.Sprintf("race check tasks=%d => err:run", k)})
+		return
+	}
+	for _, l := range strings.Split(so.String(), "\n") {
+		if strings.TrimSpace(l) != "" {
+			out.Line(l)
+		}
+	}
+	races := strings.Count(se.String(), "WARNING: DATA RACE")
+	if races > 0 {
+		fmt.Fprintln(os.Stderr, se.String())
+	}
+	emit(out, "race", []string{fmt.Sprintf("race check tasks=%d => %d", k, races)})
 }
